@@ -312,7 +312,7 @@ def gen_lat_input(rng, p, max_rows=8):
     return inp
 
 
-AGGS = ["count", "sum", "min", "max", "not"]
+AGGS = ["count", "sum", "min", "max", "not", "minmax"]      # minmax: a USER-DEFINED aggregator that returns TWO values (harness common.rs)
 
 
 def gen_agg_program(rng):
@@ -328,12 +328,12 @@ def gen_agg_program(rng):
             sar = p["rels"][src]["arity"]
             fn = rng.choice(AGGS)
             bin_rels = [r for r in range(base) if p["rels"][r]["arity"] == 2]
-            if fn in ("sum", "min", "max") and rng.chance(1, 2):   # (count yields usize: not usable as a column)
+            if fn in ("sum", "min", "max", "minmax") and rng.chance(1, 2):   # (count yields usize: not usable as a column)
                 # the aggregation comes FIRST and binds a variable that the SECOND of two joined clauses repeats:
                 # `res(y, m) <-- agg m = max(x) in nums(x), a(y, z), b(z, m)` - a binder before a simple join (the join must not be reordered)
                 aargs, bound = [], []
                 for j in range(sar):
-                    if fn in ("sum", "min", "max") and not bound: aargs.append(("b", 20)); bound.append(20)
+                    if fn in ("sum", "min", "max", "minmax") and not bound: aargs.append(("b", 20)); bound.append(20)
                     elif rng.chance(1, 4): aargs.append(("k", rng.range(0, 3)))
                     else: aargs.append("_")
                 # two input-only relations, so that the inputs control which of them is larger
@@ -387,11 +387,11 @@ def gen_agg_program(rng):
                 elif x < 5: aargs.append(("k", rng.range(0, 3)))
                 elif x < 7 or fn in ("count", "not") or bound: aargs.append("_")
                 else: aargs.append(("b", bv)); bound.append(bv)
-            if fn in ("sum", "min", "max") and not bound:
+            if fn in ("sum", "min", "max", "minmax") and not bound:
                 j = rng.below(sar); aargs[j] = ("b", bv); bound = [bv]
             outs = [] if fn == "not" else [21]
             body.append(("agg", outs, fn, bound, src, aargs))
-            har = rng.choice([1, 2])
+            har = 2 if fn == "minmax" else rng.choice([1, 2])
             hargs = [("var", rng.choice(kvars))] + ([("var", 21)] if (outs and har == 2) else ([rng.range(0, 2)] if har == 2 else []))
             p["rels"].append({"arity": har})
             out = len(p["rels"]) - 1
